@@ -59,9 +59,10 @@ type Probe struct {
 }
 
 type Case struct {
-	Immutable bool
-	Hist      []HReq
-	Probe     Probe
+	AdaptorPanic bool `json:",omitempty"` // adaptor property: the history's handlers that set locals panic afterwards
+	Immutable    bool
+	Hist         []HReq
+	Probe        Probe
 }
 
 func newApp(c Case) *fiber.App {
@@ -77,6 +78,11 @@ func newApp(c Case) *fiber.App {
 			case "locals":
 				ctx.Locals("lk", "lv-"+ctx.Params("p1"))
 				ctx.Locals("other", 42)
+			case "localspanic":
+				// (adaptor histories only: net/http recovers a panicking handler per connection and keeps serving)
+				ctx.Locals("lk", "lv-"+ctx.Params("p1"))
+				ctx.Locals("other", 42)
+				panic("handler failed after setting its locals")
 			case "viewbind":
 				_ = ctx.ViewBind(fiber.Map{"vb": "vb-" + ctx.Params("p1")})
 			case "hdr":
@@ -412,7 +418,7 @@ func genFlash(t *rapid.T, label string) []byte {
 }
 
 func genCase(t *rapid.T) Case {
-	c := Case{Immutable: rapid.IntRange(0, 3).Draw(t, "immutable") == 0}
+	c := Case{Immutable: rapid.IntRange(0, 3).Draw(t, "immutable") == 0, AdaptorPanic: rapid.Bool().Draw(t, "adaptorpanic")}
 	n := rapid.IntRange(0, 12).Draw(t, "nhist")
 	for i := 0; i < n; i++ {
 		h := HReq{Kind: "dirty", I: i + 1, Method: rapid.SampledFrom([]string{"GET", "POST", "PUT"}).Draw(t, "m"), P2: rapid.Bool().Draw(t, "p2"),
@@ -623,7 +629,14 @@ func serveHTTP(h http.Handler, raw []byte) (string, bool) {
 	}
 	req.RemoteAddr = "192.0.2.7:4711"
 	rec := httptest.NewRecorder()
-	h.ServeHTTP(rec, req)
+	panicked := func() (p bool) {
+		defer func() { p = recover() != nil }() // what net/http's server does with a panicking handler
+		h.ServeHTTP(rec, req)
+		return false
+	}()
+	if panicked {
+		return "handler panicked", true
+	}
 	var lines []string
 	for k, vs := range rec.Header() {
 		if k == "Date" {
@@ -657,6 +670,15 @@ func checkAdaptor(c Case) vk.Verdict {
 	for _, hr := range c.Hist {
 		if hr.Kind == "malformed" || !carriable(hr.Flash) {
 			continue // net/http refuses these before the adaptor sees them
+		}
+		if c.AdaptorPanic {
+			// the handlers that set locals panic afterwards
+			hr.Acts = append([]string{}, hr.Acts...)
+			for i, a := range hr.Acts {
+				if a == "locals" {
+					hr.Acts[i] = "localspanic"
+				}
+			}
 		}
 		if _, ok := serveHTTP(h, hr.wire()); ok {
 			served++
